@@ -67,6 +67,7 @@ func Run(p *load.Program, tier string) *oblig.Set {
 	r.jumpRules()
 	r.atonRule()
 	r.boundsRule()
+	r.errorExits()
 	r.dflt()
 	r.effects()
 	return s
